@@ -137,7 +137,7 @@ class Scheduler:
     """One execution = one Scheduler instance."""
 
     def __init__(self, prefix=(), bounding="delay", step_budget=400_000, horizon=None,
-                 trace_files=None, record_trace=False, expect_ns=None, timer_dev=False):
+                 trace_files=None, record_trace=False, expect_ns=None, timer_dev=False, opcode_funcs=None):
         self.timer_dev = timer_dev  # explore "a timed wait expires although other threads can run" (cost 1)
         self.threads = []
         self.by_ident = {}
@@ -153,6 +153,7 @@ class Scheduler:
         self.horizon = horizon  # absolute virtual time, or None
         self.aborting = False
         self.trace_files = trace_files  # {filename: None | set(function names)}
+        self.opcode_funcs = set(opcode_funcs or ())   # function names (in traced files) stepped per bytecode
         self.record_trace = record_trace
         self.trace = []
         self.deadlock_info = None
@@ -455,10 +456,15 @@ class Scheduler:
             return None
         if fns is not None and frame.f_code.co_name not in fns:
             return None
+        oc = getattr(self, "opcode_funcs", None)
+        if oc and frame.f_code.co_name in oc:
+            # bytecode granularity for the designated functions: a read-modify-write of a shared counter is one
+            # source line (x.n += k) but several interpreter steps, and the interpreter may switch threads between them
+            frame.f_trace_opcodes = True
         return self._local_trace
 
     def _local_trace(self, frame, event, arg):
-        if event == "line" and self.line_points and not self.aborting and CUR is self:
+        if (event == "line" or event == "opcode") and self.line_points and not self.aborting and CUR is self:
             me = self.by_ident.get(_thread.get_ident())
             if me is not None and self.cur is me:
                 if self.record_trace:
